@@ -120,7 +120,8 @@ theorem reduction_any_two_schedules (f : Nat → Nat) (n init : Nat) (s s' : Sch
 example : Schedule.Valid ⟨[[4, 0], [1, 3, 5], [2]], .node (.node (.leaf 2) (.leaf 0)) (.leaf 1)⟩ 6 :=
   Schedule.valid_of_validB _ _ (by decide)
 
-/-- ★ the schedule quantifier at the level of atomic loads and stores: each thread owns a private copy of the
+/-- ★ the schedule quantifier at the level of atomic loads and stores, *in the model of the loop* (that the compiled
+    loop behaves like this model is the reading of the race-free descriptor, not a theorem): each thread owns a private copy of the
     reduction variable, an iteration is a load of that copy followed by a store of the loaded value plus the
     iteration's contribution (`a += x` is a load and a store, not an atomic update). The loop is race-free
     (`ParFor.raceFree_threadProg`), and after *every interleaving* of these events in which all threads finish,
